@@ -46,6 +46,14 @@ P = {
    text="Decided on every path of consumer_group.go: Setup before claims; cancel→wait→(once) Cleanup→final commit→heartbeat stop; single call sites of the handler methods; Consume always releases; claim goroutines counted, Done and cancel deferred; claim start offset provenance and the out-of-range fallback; identity fields of join/sync/heartbeat/leave/commit; sibling agreement of the join and sync switches, member-id reset when fenced, budget-guarded retries; group lock held for the whole session.",
    note="Coverage of the log across sessions and commit-before-return under coordinator faults are behavioural and not covered.",
    technique="SSA must-precede/must-follow queries, literal-field provenance, sibling-switch agreement, lockset"),
+ "C14": dict(claimed=True,
+   text="Decided on every path of broker.go: send is one critical section of Broker.lock in which the id is read, the request written, the id incremented and the promise (carrying the written id) enqueued; the receive loop gives each promise exactly one outcome, a packet only after both reads, the header decode and the id comparison succeeded; every error becomes sticky; queue capacity MaxOpenRequests-1; all connection I/O goes through readFull/write which set deadlines; sendAndReceive awaits its promise. The slot-before-write clause is violated on the pinned tree and listed as known finding F7.",
+   note="Server behaviours, Close racing with calls, fairness are not covered. F7 is recorded in known-findings.txt with a demonstration.",
+   technique="SSA exactly-once path counting, guard queries, phi-edge (sticky state) analysis, who-may-call tables, lockset"),
+ "C15": dict(claimed=True,
+   text="Decided: all shared client state under client.lock with write mode for writes (interprocedural lockset incl. the helpers documented as needing the lock); metadata changes always paired with the derived-list change in the same function; per-error-class effect table of updateMetadata extracted from the switch CFG; sorted lists and exactly-the-leaderless skip; cachedLeader's guards; broker reconciliation; candidate loops set the failed broker aside and resurrect seeds before retrying; read paths refresh once on a miss.",
+   note="Folding of arbitrary response sequences and what concurrent readers observe beyond the lock discipline are not decided.",
+   technique="interprocedural must-lockset analysis + SSA path/guard rules + case→effect table extraction"),
  "C01": dict(claimed=True,
    text="Structural necessary conditions of exactly-one-outcome decided on every CFG path of the producer pipeline (emit/Done pairing, no partially disposed batch, marker accounting, exactly-once routing of every partition set, retry budget guards, Wait-before-close, sync-producer expectation protocol). It is not a proof of the behaviour: cross-goroutine liveness of the retry loop is not covered.",
    note="Trusts go/ssa's model of the source; disposer functions are computed as a fixed point from the source, channel/field anchors are named in rules_c01.go.",
